@@ -26,6 +26,15 @@ def enumFrom {α : Type} : Nat → List α → List (Nat × α)
   | _, [] => []
   | i, a :: as => (i, a) :: enumFrom (i + 1) as
 
+def parseSdp (toks : List String) : Option (Sdp (Nat × CandInfo) Unit Unit) :=
+  let secs := (splitMedia toks).map fun sec => sec.filter (· ≠ ".")
+  (secs.mapM (fun (sec : List String) => sec.mapM parseAttr)).map fun ms => ⟨(), ms.map fun as => ⟨(), enumFrom 0 as⟩⟩
+
+/-- surviving attribute indices per media section -/
+def render (out : Sdp (Nat × CandInfo) Unit Unit) : String :=
+  " | ".intercalate (out.media.map fun m =>
+    if m.attrs.isEmpty then "." else ",".intercalate (m.attrs.map fun a => toString a.1))
+
 def handle : List String → String
   | ["islocal", h] =>
     match Hex.decode h with
@@ -33,13 +42,15 @@ def handle : List String → String
     | none => "bad-op"
   | ["strip"] => "none"
   | "strip" :: toks =>
-    let secs := (splitMedia toks).map fun sec => sec.filter (· ≠ ".")
-    match secs.mapM (fun sec => sec.mapM parseAttr) with
-    | some ms =>
-      let d : Sdp (Nat × CandInfo) Unit Unit := ⟨(), ms.map fun as => ⟨(), enumFrom 0 as⟩⟩
-      let out := stripSdp (fun a => a.2) d
-      " | ".intercalate (out.media.map fun m =>
-        if m.attrs.isEmpty then "." else ",".intercalate (m.attrs.map fun a => toString a.1))
+    match parseSdp toks with
+    | some d => render (stripSdp (fun a => a.2) d)
+    | none => "bad-op"
+  -- `leaves <keep: 0|1> <attribute facts…>`: what Negotiate / sendAnswer send (`Util.leaves`)
+  | ["leaves", _] => "none"
+  | "leaves" :: k :: toks =>
+    if k ≠ "0" ∧ k ≠ "1" then "bad-op" else
+    match parseSdp toks with
+    | some d => render (leaves (fun a => a.2) (k == "1") (⟨(), d⟩ : Desc Unit (Nat × CandInfo) Unit Unit)).sdp
     | none => "bad-op"
   | _ => "bad-op"
 
